@@ -1,6 +1,6 @@
 (* C10 - Clean (consolidate, save, prune) never changes what the repository reports. *)
 From BR Require Import Base.Prelude Base.Compact Headers.Tree Headers.TreeBasics Headers.TreeInv
-     Headers.TreeSteps Headers.TreeStream Headers.TreeProps Headers.TreeExample Headers.TreeHorizon Headers.TreeRestore Headers.TreeFinal.
+     Headers.TreeSteps Headers.TreeStream Headers.TreeProps Headers.TreeExample Headers.TreeHorizon Headers.TreeRestore Headers.TreeFinal Headers.TreeFuture.
 Open Scope N_scope.
 
 (* at any state, for any prune depth: tip, tip height and work, the chain at every height, the
@@ -56,9 +56,26 @@ Proof. exact pruned_history_final. Qed.
 Print Assumptions C10_pruned_history_final.
 (* (Inv and K hold in every reachable state: TreeSteps.run_inv, TreeHorizon.run_K.) *)
 
-(* Not proved: that every later submission receives the very same verdict with and without the
-   Clean (the fork-depth rule looks at branch-continuation flags which Clean rearranges); decided by
-   the correspondence check with a clean-free control run. *)
+(* the future: a header that extends a side branch (its parent is held in memory, off the best
+   chain) and a header that extends the tip receive the same verdict and cause the same
+   announcement whether or not the repository was cleaned first - in particular a side branch
+   extended past the tip's work takes over in both (C01_max_work decides the new tip) *)
+Theorem C10_future_side_branch : forall cfg s d h pick p, cfg_ok cfg -> Inv s -> K (nodes s) -> (0 <= d)%Z ->
+  op_ok s (OSubmit h pick) ->
+  find_mem (nodes s) (h_prev h) = Some p -> is_anc (nodes s) (h_prev h) (tip s) = false ->
+  snd (submit cfg (fst (clean s d)) h pick) = snd (submit cfg s h pick).
+Proof. exact clean_then_extend_side. Qed.
+Print Assumptions C10_future_side_branch.
+
+Theorem C10_future_tip : forall cfg s d h pick, cfg_ok cfg -> Inv s -> K (nodes s) -> (0 <= d)%Z ->
+  op_ok s (OSubmit h pick) -> h_prev h = tip s ->
+  snd (submit cfg (fst (clean s d)) h pick) = snd (submit cfg s h pick).
+Proof. exact clean_then_extend_tip. Qed.
+Print Assumptions C10_future_tip.
+(* Not proved: the same for a header that starts a NEW fork at a best-chain header (the fork-depth
+   rule looks at branch-continuation flags, which Clean rearranges on the best chain), and for
+   whole sequences of later submissions; decided by the correspondence check with a clean-free
+   control run. *)
 
 Example C10_example : tip (fst (clean (final ex_cfg ex_g ex_ops) 0)) = 5 /\
   exists n, find 1 (nodes (fst (clean (final ex_cfg ex_g ex_ops) 0))) = Some n /\ n_mem n = false.
